@@ -590,6 +590,39 @@ def oracle_queue(payload):
             running = None
     if len(tids) > 1:
         return "tasks ran on more than one thread: %s" % sorted(tids)
+    # no task pushed after an abort took effect may ever start; a task started after abort RETURNED must have
+    # been popped before it.  Task ids are recovered from the programs: the k-th `post` of a thread / task body.
+    cfg = parts[0][len("cfg="):]
+    progs, bodies = [], {}
+    for seg in cfg.split(" / "):
+        if seg.startswith("P:"):
+            progs.append([c.strip() for c in seg[2:].split(";") if c.strip()])
+        elif seg.startswith("B"):
+            k, cs = seg[1:].split(":", 1)
+            bodies[k] = [c.strip() for c in cs.split(";") if c.strip()]
+    labels = [l.split() for l in parts[2].split(";") if l.strip()]
+    pos = {}            # model tid -> remaining calls of what it is running (posters: program; worker: current task body)
+    for i, p in enumerate(progs):
+        pos[str(i + 1)] = list(p)
+    aborted = False
+    pushed_after_abort = []
+    cur_call = {}
+    stamp_iter = iter([s.split(":", 1)[1] for s in stamps if "taskStart" in s])
+    for tid, kind in labels:
+        if kind == "taskStart":
+            t = next(stamp_iter, "taskStart?")[len("taskStart"):]
+            pos["0"] = list(bodies.get(t, []))
+            if t in pushed_after_abort:
+                return "task %s was posted after abort had taken effect, yet it was run" % t
+        elif kind == "callStart":
+            calls = pos.get(tid, [])
+            cur_call[tid] = calls.pop(0) if calls else "?"
+        elif kind == "abortWrite":
+            aborted = True
+        elif kind == "push" and aborted:
+            c = cur_call.get(tid, "")
+            if c.startswith("post "):
+                pushed_after_abort.append(c.split()[1])
     return None
 
 
